@@ -204,3 +204,17 @@ CHECKS["C15"] = dict(
     assumptions=["statuses of reset scenarios are sets (a reset may surface on either copy direction)"],
     units=[unit("props", ["Wire"], "C15")],
 )
+
+CHECKS["C18"] = dict(
+    level="exploration",
+    rule="Every case is journalled before it runs (a dead shard process is a violation whose replay file is the journalled case). "
+         "(TCP) 1..10 hostile connections per case through the real StreamServe: raw bytes (0..70000), authenticated plaintext from a header grammar (address type 0..255, hosts incl. empty, 255-byte, "
+         "zoned and bracketed literals, unresolvable names, declared domain lengths 0/1/128/255, ports 0/1/53/65535, truncation at every byte), hostile chunk framing (zero-length chunk, length with high bits, "
+         "oversized and mismatched lengths, truncated chunk); generated termination order (client close / reset / hold / target close) and listener shutdown after k connections. "
+         "(UDP) 1..14 operations: raw datagrams of 0..65507 bytes, authenticated plaintext from the same grammar, valid datagrams, replies of 0..65507 bytes from a sender on every local address class "
+         "(IPv4/IPv6 loopback, 192.0.2.2, ULA, zoned link-local), listener shutdown at any point. Oracle: process alive, no recovered-panic log record, a canary connection/datagram is still served, "
+         "StreamServe returns only with zero handlers in flight, Handle returns, and the server's goroutines and sockets are back to the per-case baseline within 4 s. "
+         "Non-trivial = input that reaches address parsing (authenticates), or a reply from a non-IPv4-loopback source, or a shutdown with work in flight.",
+    assumptions=["destinations in generated headers are local only (no egress); unresolvable names are answered by the in-process DNS", "address classes absent on the host are skipped and counted"],
+    units=[unit("props", ["TCP", "UDP"], "C18", crash_is_violation=True, wedge_is_violation=True)],
+)
